@@ -235,36 +235,30 @@ func hasAbsoluteRoutes(root *expr.RootExpr) bool {
 }
 
 func summaryFromExpr(name string, e *expr.HTTPEndpointExpr) string {
-	for n, mdata := range e.Meta {
-		if (n == "openapi:summary" || n == "swagger:summary") && len(mdata) > 0 {
-			return mdata[0]
-		}
-	}
-	for n, mdata := range e.MethodExpr.Meta {
-		if (n == "openapi:summary" || n == "swagger:summary") && len(mdata) > 0 {
-			return mdata[0]
-		}
-	}
-	for n, mdata := range e.Service.ServiceExpr.Meta {
-		if (n == "openapi:summary" || n == "swagger:summary") && len(mdata) > 0 {
-			return mdata[0]
-		}
-	}
-	for n, mdata := range expr.Root.API.Meta {
-		if (n == "openapi:summary" || n == "swagger:summary") && len(mdata) > 0 {
-			return mdata[0]
+	for _, meta := range []expr.MetaExpr{e.Meta, e.MethodExpr.Meta, e.Service.ServiceExpr.Meta, expr.Root.API.Meta} {
+		if summary, ok := summaryMeta(meta); ok {
+			return summary
 		}
 	}
 	return name
 }
 
 func summaryFromMeta(name string, meta expr.MetaExpr) string {
-	for n, mdata := range meta {
-		if (n == "openapi:summary" || n == "swagger:summary") && len(mdata) > 0 {
-			return mdata[0]
-		}
+	if summary, ok := summaryMeta(meta); ok {
+		return summary
 	}
 	return name
+}
+
+// summaryMeta returns the value of the "openapi:summary" meta if set, the
+// value of the deprecated "swagger:summary" meta otherwise.
+func summaryMeta(meta expr.MetaExpr) (string, bool) {
+	for _, n := range []string{"openapi:summary", "swagger:summary"} {
+		if mdata := meta[n]; len(mdata) > 0 {
+			return mdata[0], true
+		}
+	}
+	return "", false
 }
 
 func paramsFromExpr(params *expr.MappedAttributeExpr, path string) []*Parameter {
